@@ -140,7 +140,7 @@ def _judge(w, emd, S, variant, x, kw, cfg, out, exc, t0, b0, ci):
                 ms.append({'index': len(ms), 'ok': ok, 'result': r.get('out') if ok else r.get('exc'),
                            'worker': worker_of.get(r['task'], 0) if r['task'] is not None else 0,
                            'inputs': [k['x'] for k in inner], 'outs': [k.get('out') for k in inner],
-                           'Xarg': (r['bound'] or {}).get('X')})
+                           'Xarg': r['x']})        # the signal as it was when the member was entered
             members.append(ms)
     else:
         w.probe('members_from_pool_jobs')
@@ -195,6 +195,21 @@ def _judge(w, emd, S, variant, x, kw, cfg, out, exc, t0, b0, ci):
         if len(ms) != nens:
             w.violation('member-count', variant, '%s decomposed %d ensemble members for nensembles=%d' % (variant, len(ms), nens))
             return
+
+    # ---- 0. every member starts from the same signal: the caller's (ensemble) / the current residue (complete) --
+    X0 = x[:, None]
+    for bi, ms in enumerate(members):
+        sigs = [m['Xarg'] for m in ms if m['Xarg'] is not None]
+        if len(sigs) != len(ms):
+            continue
+        ref = X0 if (variant == 'ensemble_sift' or bi == 0) else np.asarray(sigs[0]).reshape(X0.shape)
+        for m in ms:
+            if not np.array_equal(np.asarray(m['Xarg']).reshape(X0.shape), ref):
+                w.violation('member-signal', variant,
+                            '%s batch %d: member %d was not handed the signal the other members decompose (max abs '
+                            'difference %.3g): noise from one member leaked into the next'
+                            % (variant, bi, m['index'], float(np.max(np.abs(np.asarray(m['Xarg']).reshape(X0.shape) - ref)))))
+                return
 
     # ---- 1. distinct, uncorrelated realisations --------------------------------------------
     for bi, ms in enumerate(members):
